@@ -2,11 +2,56 @@
 #include <iostream>
 #include <cstdlib>
 #include <unistd.h>
+#include <sys/wait.h>
 
 namespace vh {
 std::map<std::string, Handler>& registry() {
 	static std::map<std::string, Handler> r;
 	return r;
+}
+std::string forked(const std::function<std::string()>& fn, unsigned timeoutSec) {
+	int fds[2];
+	if (pipe(fds) != 0)
+		return "fail pipe";
+	fflush(nullptr);
+	pid_t pid = fork();
+	if (pid == 0) {
+		close(fds[0]);
+		alarm(timeoutSec);
+		std::string r;
+		try {
+			r = fn();
+		}
+		catch (const std::exception& e) {
+			r = std::string("exception ") + e.what();
+		}
+		catch (...) {
+			r = "exception ?";
+		}
+		size_t off = 0;
+		while (off < r.size()) {
+			ssize_t n = ::write(fds[1], r.data() + off, r.size() - off);
+			if (n <= 0)
+				break;
+			off += static_cast<size_t>(n);
+		}
+		close(fds[1]);
+		_exit(0);
+	}
+	close(fds[1]);
+	std::string out;
+	char buf[65536];
+	ssize_t n;
+	while ((n = ::read(fds[0], buf, sizeof buf)) > 0)
+		out.append(buf, static_cast<size_t>(n));
+	close(fds[0]);
+	int st = 0;
+	waitpid(pid, &st, 0);
+	if (WIFSIGNALED(st))
+		return "crash signal=" + std::to_string(WTERMSIG(st));
+	if (WEXITSTATUS(st) != 0)
+		return "fail rc=" + std::to_string(WEXITSTATUS(st));
+	return out;
 }
 std::string hexEncode(const std::string& b) {
 	static const char* d = "0123456789abcdef";
